@@ -101,9 +101,13 @@ var pathFragments = []string{"..", ".", "/", "//", "../", "../../", "./", "a", "
 func genHostileName(t *rapid.T, used map[string]bool) []byte {
 	for {
 		var sb strings.Builder
-		switch rapid.IntRange(0, 5).Draw(t, "name_kind") {
+		switch rapid.IntRange(0, 6).Draw(t, "name_kind") {
 		case 0: // friendly
 			sb.WriteString(rapid.StringMatching(`[a-z0-9_]{1,12}\.(jpg|mp4|bin)`).Draw(t, "friendly"))
+		case 5: // separator-free names in the standard's pattern <type>_<channel>_<alarm type>_<seq>_<alarm number>.<ext>
+			// whose fields are dots: nothing in them may become a path component
+			sb.WriteString(rapid.SampledFrom([]string{"00_65_6401_0_...jpg", "02_65_6401_1_..", "00_65_6401_0_..bin", "a_b_c_d_..", "..._65_6401_0_x.jpg", ".._.._.._.._...jpg",
+				"00_65_.._0_f3a1.jpg", "00_.._6401_0_f3a1.jpg", "00_65_6401_.._f3a1.jpg", "00_65_6401_0_..", "._._._._.", "00_65_6401_0_..mp4", "1_2_3_4_...."}).Draw(t, "dotted_fields"))
 		case 1: // known escapes
 			sb.WriteString(rapid.SampledFrom([]string{"../x", "../decoy", "../../x", "../../etc/passwd", "/x", "..", ".", "../", "other/decoy", "./../x", "a/../../x",
 				"..//x", "/../x", "../work/x", "../../work/work/x", "x/", "a/b/c/d",
@@ -176,6 +180,12 @@ func genC19(t *rapid.T) c19Case {
 		c.Overlap = true
 	case 3:
 		c.V2019 = true
+	case 5: // the all-zero phone number (directory 000000000000 resp. twenty zeros), usually with a hostile terminal ID
+		c.V2019 = rapid.Bool().Draw(t, "zero_v2019")
+		c.PhoneRaw = make([]byte, map[bool]int{false: 6, true: 10}[c.V2019])
+		if rapid.IntRange(0, 3).Draw(t, "zero_tid") != 0 {
+			c.TerminalID = kit.Hex(rapid.SampledFrom([]string{"..", "../out", ".", "/x", "../x", "ABC1234", "..//", "../../x"}).Draw(t, "tid_escape"))
+		}
 	case 4: // a phone field that is not decimal BCD; the other terminal's decimal phone equals its digits-only part
 		n := 6
 		if c.V2019 = rapid.Bool().Draw(t, "raw_v2019"); c.V2019 {
@@ -361,7 +371,9 @@ func checkC19(c c19Case, _ *kit.Collector) kit.Result {
 		phone = ref.StripZeros(c.Phone)
 	}
 	if len(c.PhoneRaw) > 0 {
-		phone = ref.StripZeros(ref.PhoneDigits(c.PhoneRaw))
+		if phone = ref.StripZeros(ref.PhoneDigits(c.PhoneRaw)); phone == "" {
+			phone = ref.PhoneDigits(c.PhoneRaw) // an all-zero number keeps its zeros
+		}
 		res.Labels = append(res.Labels, "phone_with_hex_nibbles")
 	}
 	if c.Phone != "" || c.V2019 || len(c.PhoneRaw) > 0 {
